@@ -41,7 +41,7 @@ Rewrite rules (closed list, every application logged with source line):
   N4  `E.map_or(LIT, |p| B)` -> `(match E { Some(p) => B, None => LIT })` (definition of Option::map_or)
   N5  `E.map(|p| B).unwrap_or(LIT)` -> `(match E { Some(p) => B, None => LIT })`
   N7  `E.is_some_and(|p| B)` / `E.is_none_or(|p| B)` -> `match` (definitions)
-  N9  `for (i, x) in E.into_iter().enumerate() {B}` -> counter + plain `for`
+  N9  `for (i, x) in E.into_iter().enumerate() {B}` (or `E.iter().enumerate()`) -> counter + plain `for`
   N8  `E.map(|p| B)` on an Option -> `match`
   N6  iterator chains `X.iter().position(|p| B)`, `X.iter().any(|p| B)` and `X.iter().filter(|p| F).map(|q| E).collect()` ->
       explicit `for` loops (definitions of the adapters for side-effect-free closures)
@@ -532,6 +532,8 @@ def rule_N1(src, lo, hi, enabled):
                     elif toks[j].text == "{" and depth == 0:
                         break
                     j += 1
+                if "N9" in enabled and re.search(r"\.(into_iter|iter)\(\)\s*(\.filter\(.*\))?\s*\.enumerate\(\)\s*$", src[toks[c + 2].start:toks[j].start].strip(), re.S):
+                    continue    # an enumerate loop: rule N9 rewrites it
                 var = "__kv%d" % k
                 k += 1
                 lets = []
@@ -1315,13 +1317,15 @@ def rule_N9(src, lo, hi, enabled):
                         raise VxError("N9: filter predicate may have side effects")
                     filt = (fpat, fbody)
                     e_end = q - 2
-            if [x.text for x in toks[e_end - 4:e_end]] != [".", "into_iter", "(", ")"]:
+            tail4 = [x.text for x in toks[e_end - 4:e_end]]
+            if tail4 != [".", "into_iter", "(", ")"] and tail4 != [".", "iter", "(", ")"]:
                 continue
+            keep_iter = tail4[1] == "iter"      # `E.iter().enumerate()`: the plain loop runs over `E.iter()`
             bc = match_close(toks, j)
             body_txt = src[toks[j].end:toks[bc].start]
             if re.search(r"\bcontinue\b", body_txt):
                 raise VxError("N9: enumerate loop body contains `continue`")
-            expr = src[toks[i + 7].start:toks[e_end - 4].start].strip()
+            expr = src[toks[i + 7].start:(toks[e_end - 1].end if keep_iter else toks[e_end - 4].start)].strip()
             if filt is None:
                 out.append(("N9", toks[i].start, toks[j].start, "{ let mut %s: usize = 0; for %s in %s " % (iv, xv, expr)))
                 out.append(("N9", toks[bc].start, toks[bc].end, "%s += 1; } }" % iv))
